@@ -28,7 +28,12 @@ def has_ignore_directive_marker(line: str) -> bool:
         True if line has ignore-file marker
     """
     line_lower = line.lower()
-    return "# thailint: ignore-file" in line_lower or "# design-lint: ignore-file" in line_lower
+    return (
+        "# thailint: ignore-file" in line_lower
+        or "# design-lint: ignore-file" in line_lower
+        or "// thailint: ignore-file" in line_lower
+        or "// design-lint: ignore-file" in line_lower
+    )
 
 
 def has_line_ignore_marker(code: str) -> bool:
@@ -58,7 +63,13 @@ def has_ignore_next_line_marker(line: str) -> bool:
     Returns:
         True if line has ignore-next-line marker
     """
-    return "# thailint: ignore-next-line" in line or "# design-lint: ignore-next-line" in line
+    line_lower = line.lower()
+    return (
+        "# thailint: ignore-next-line" in line_lower
+        or "# design-lint: ignore-next-line" in line_lower
+        or "// thailint: ignore-next-line" in line_lower
+        or "// design-lint: ignore-next-line" in line_lower
+    )
 
 
 def has_ignore_start_marker(line: str) -> bool:
